@@ -51,30 +51,49 @@ class _Chain:
         return out
 
 
+def _prev_prime(n):
+    """largest prime below n"""
+    c = n - 1
+    c -= 1 - (c & 1)
+    while not nt.is_prime(c):
+        c -= 2
+    return c
+
+
 def _viol(acc, kind, cat, what, case):
     acc.violation("C05/gen/%s/%s" % (kind, cat), what, case)
 
 
 # ---------------------------------------------------------------------------
 def check_gen_rsa(case, acc):
-    """case: bits, e, label, prefix (bytes), inject ('q=p' | None)"""
+    """case: bits, e, label, prefix (bytes), inject ('q=p' | 'q~p' | None)"""
     from Crypto.PublicKey import RSA
     from . import c05 as M
     bits, e, label = case["bits"], case["e"], case["label"]
     tape = Tape(label, case.get("prefix") or b"")
     state = {"calls": 0, "p": None, "pbits": None, "offered": 0}
     orig = RSA.generate_probable_prime
-    if case.get("inject") == "q=p":
+    if case.get("inject") in ("q=p", "q~p"):
         def wrapper(**kw):
             state["calls"] += 1
             second = state["calls"] % 2 == 0
             if second and state["p"] is not None and kw.get("exact_bits") == state["pbits"]:
-                # the first candidates offered for q are the prime following p and p itself: both must be
-                # turned down by the |p - q| > 2^(bits/2 - 100) filter
+                # the first candidates offered for q must all be turned down by the |p - q| > 2^(bits/2 - 100) filter:
+                #  q=p : the prime following p, and p itself
+                #  q~p : primes no further than 2^(bits/2-100) from p whose leading 100 bits differ from p's (on the other side of
+                #        the multiples of 2^(bits/2-100) below and above p), and the primes just inside distance 2^(bits/2-100)
                 nb = (state["pbits"] + 7) // 8
-                near = nt.next_prime(state["p"])
-                pb = (near.to_bytes(nb, "big") if near.bit_length() == state["pbits"] else b"") + state["p"].to_bytes(nb, "big")
-                kw = dict(kw, randfunc=_Chain(pb, kw["randfunc"]))
+                pp = state["p"]
+                if case["inject"] == "q=p":
+                    cands = [nt.next_prime(pp), pp]
+                else:
+                    sh = bits // 2 - 100
+                    lo = (pp >> sh) << sh
+                    cands = [_prev_prime(lo), nt.next_prime(lo + (1 << sh)), _prev_prime(pp + (1 << sh)), nt.next_prime(pp - (1 << sh))]
+                    cands = [c for c in cands if 0 < abs(c - pp) <= (1 << sh)]
+                pb = b"".join(c.to_bytes(nb, "big") for c in cands if c.bit_length() == state["pbits"])
+                state["chain"] = _Chain(pb, kw["randfunc"])
+                kw = dict(kw, randfunc=state["chain"])
                 state["offered"] += 1
             r = orig(**kw)
             if not second:
@@ -86,10 +105,16 @@ def check_gen_rsa(case, acc):
     finally:
         RSA.generate_probable_prime = orig
     pre = "RSA.generate(%d, e=%d) on tape %r%s%s" % (bits, e, label, " with prefix " + short(case["prefix"]) if case.get("prefix") else "",
-                                                      " (first candidates offered for q: next_prime(p), p)" if case.get("inject") else "")
+                                                      " (first candidates offered for q: next_prime(p), p)" if case.get("inject") == "q=p" else
+                                                      " (first candidates offered for q: primes within 2^(bits/2-100) of p across a multiple of 2^(bits/2-100), "
+                                                      "and just inside that distance)" if case.get("inject") else "")
     legal = bits >= 1024 and e >= 3 and e % 2 == 1
     if case.get("inject") and state["offered"]:
         acc.count("gen_rsa_injected")
+        ch = state["chain"]
+        if ch.prefix and ch.pos == len(ch.prefix):
+            acc.count("gen_rsa_injected_all_candidates_consumed")
+            acc.count("gen_rsa_injected_candidates", len(ch.prefix) // ((state["pbits"] + 7) // 8))
     if st == "hang":
         _viol(acc, "rsa", "hang", pre + ": no key after %.0f s of CPU time" % GEN_BUDGET, case)
         return "hang"
@@ -331,6 +356,7 @@ def gen_cases(quick):
             if bits % 2 == 0:
                 for i in range(1 if quick else 3):
                     out.append({"kind": "rsa", "bits": bits, "e": e, "label": "rsa/%d/%d/inj%d" % (bits, e, i), "inject": "q=p"})
+                    out.append({"kind": "rsa", "bits": bits, "e": e, "label": "rsa/%d/%d/near%d" % (bits, e, i), "inject": "q~p"})
     if not quick:
         out.append({"kind": "rsa", "bits": 2048, "e": 65537, "label": "rsa/2048/0"})
         out.append({"kind": "rsa", "bits": 2048, "e": 65537, "label": "rsa/2048/inj", "inject": "q=p"})
@@ -376,7 +402,7 @@ def gen_worker(cases):
         res = check_gen(case, acc)
         acc.count("evaluations")
         acc.count("gen_cases")
-        tk = "inject" if case.get("inject") else "prefix" if case.get("prefix") else "stream"
+        tk = "inject " + case["inject"] if case.get("inject") else "prefix" if case.get("prefix") else "stream"
         if case["kind"] == "ecc":
             tk = case["label"].split("/")[-1] if case.get("prefix") else "stream"
         acc.seen("classes", ("gen", case["kind"], case.get("bits", case.get("curve")), case.get("e"),
